@@ -321,6 +321,9 @@ func (d *Driver) FamReaders(perType, G, iters int) {
 			e := d.histEvent(o, "new")
 			e.St = "ok"
 			d.finishHist(o, e)
+			// the readers are also the first users of the message's type: the classification cache is emptied (verif hook), so that
+			// whatever the generated Size / MarshalTo consult on the way (extendable messages ask csproto.MsgType) is first used concurrently
+			csproto.VerifResetMsgTypeCache()
 			var wg sync.WaitGroup
 			for g := 0; g < G; g++ {
 				wg.Add(1)
